@@ -101,6 +101,19 @@ impl Matcher {
         &mut self,
         transactions: Vec<GbpTransaction>,
     ) -> Result<(Vec<MatchResult>, HashMap<String, Section104Holding>), CgtError> {
+        // A split ratio that is not positive cannot be applied (the 30-day look-ahead
+        // divides by it); refuse it here so callers that skip `validate()` get an error.
+        for tx in &transactions {
+            if let Operation::Split { ratio } | Operation::Unsplit { ratio } = &tx.operation
+                && *ratio <= Decimal::ZERO
+            {
+                return Err(CgtError::InvalidTransaction(format!(
+                    "split ratio for {} on {} must be positive (got {})",
+                    tx.ticker, tx.date, ratio
+                )));
+            }
+        }
+
         // Preprocess: sort and merge same-day transactions
         let transactions = self.preprocess(transactions);
 
